@@ -246,7 +246,7 @@ pub fn run_engine<E: Engine>(engine: &E, opts: &RunOpts) -> i32 {
                     cases,
                     failure_persistence: None,
                     max_shrink_iters: engine.max_shrink_iters(),
-                    max_shrink_time: 180_000,
+                    max_shrink_time: std::env::var("VERIF_SHRINK_MS").ok().and_then(|s| s.parse().ok()).unwrap_or(180_000),
                     max_local_rejects: 1 << 20,
                     max_global_rejects: 1 << 20,
                     ..Config::default()
